@@ -520,7 +520,8 @@ theorem d_stmt_of (s : Stmt) {w : List TokenKind} (h : Derives (.nt s.nt) w) : D
 
 theorem d_mcstmt_of (s : Stmt) (hmc : s.isMC = true) {w : List TokenKind} (h : Derives (.nt s.nt) w) :
     Derives (.nt .MultiClassStatement_) w :=
-  Derives.nt <|
+  -- the rule is the union of syntax.md's and the rule comment's right-hand side (which also has Defvar): take the former
+  Derives.nt <| Derives.altL <|
   match s, hmc, h with
   | .assert_ _ _, _, h => Derives.altL h
   | .def_ _ _ _, _, h => Derives.altR <| Derives.altL h
